@@ -10,7 +10,7 @@ from .. import labelled as LB
 ID = "C03"
 LEVEL = "proof"
 PROP_FILE = "Properties/C03.v"
-PROOF_FILES = ["Gen/UspfsGen.v", "Proofs/UspfsGenProofs.v", "Proofs/UspfsGenLink.v", "Proofs/UspfsGenStage1.v", "Proofs/UspfsGenEntry.v", "Proofs/UspfsGenModelPerm.v", "Proofs/UspfsGenTableExact.v", "Proofs/UspfsGenTableModel.v", "Proofs/UspfsGenDecode.v", "Proofs/UspfsGenCommon.v", "Proofs/UspfsGenStatements.v", "Gen/EvalGen.v", "Proofs/EvalGenProofs.v", "Gen/TableGen.v", "Proofs/TableGenProofs.v", "Gen/EntryGen.v", "Proofs/EntryGenProofs.v", "Proofs/AllAnyProofs.v", "Proofs/UspfsFinal.v", "Proofs/UspfsProofs.v", "Proofs/ThlProofs.v", "Model/Uspfs.v", "Model/Thl.v", "Model/Recon.v", "Model/Entry.v", "Proofs/EntryProofs.v", "Proofs/LabelCostProofs.v"]
+PROOF_FILES = ["Proofs/ReviewCModels.v", "Proofs/ReviewCUspfsOpt.v", "Proofs/ReviewCUspfsAny.v", "Gen/UspfsGen.v", "Proofs/UspfsGenProofs.v", "Proofs/UspfsGenLink.v", "Proofs/UspfsGenStage1.v", "Proofs/UspfsGenEntry.v", "Proofs/UspfsGenModelPerm.v", "Proofs/UspfsGenTableExact.v", "Proofs/UspfsGenTableModel.v", "Proofs/UspfsGenDecode.v", "Proofs/UspfsGenCommon.v", "Proofs/UspfsGenStatements.v", "Gen/EvalGen.v", "Proofs/EvalGenProofs.v", "Gen/TableGen.v", "Proofs/TableGenProofs.v", "Gen/EntryGen.v", "Proofs/EntryGenProofs.v", "Proofs/AllAnyProofs.v", "Proofs/UspfsFinal.v", "Proofs/UspfsProofs.v", "Proofs/ThlProofs.v", "Model/Uspfs.v", "Model/Thl.v", "Model/Recon.v", "Model/Entry.v", "Proofs/EntryProofs.v", "Proofs/LabelCostProofs.v"]
 TRUSTED = ["translator translator/pyfun.py (eighth extension) + the type tables in translator/uspfs_gen.py: compute/unordered_super_reconciliation.py (_compute_gain_sets, _compute_lca_sets, _make_event_combinator, _compute_uspfs_entry, _compute_uspfs_table, _decode_uspfs_table, _uspfs, usreconcile_base_uspfs, usreconcile_extended_uspfs; binary inputs: binarize() = the input itself, label_internal() a no-op) is translated into Gen/UspfsGen.v on every run and proved equal to Model/Uspfs.v (object nodes = identifiers, species = root paths, species LCA structure = the path operations, object-tree LCA structure = an opaque value assumed to return LCAs (C17), sets = duplicate-free lists whose iteration orders are parameters the theorems quantify over, sort_synteny = a parameter assumed to sort)", "model Model/Uspfs.v of _compute_gain_sets/_compute_lca_sets/_compute_uspfs_entry/_compute_uspfs_table/_decode_uspfs_table/_uspfs (after fix D6), on the Entry (C16) and evaluator (C06) models"]
 ASSUMES = ["binary trees", "cost vectors with spe + 2*sloss <= dup + 2*floss for the optimality clauses (F-COHERENCE)"]
 RULE = ("inputs = (species shape, object shape, leaf species, unordered leaf syntenies over <=4 families, coherent cost vector incl. sloss=0); "
